@@ -96,6 +96,26 @@ claim("C30", "model_checking", "enum",
       "Exhaustive for the stated alphabets.",
       ENUMNOTE, "DESIGN.md §5 C30")
 
+
+ADVNOTE = E1NOTE + "; the maker is a scripted adversary (crafted messages, invoices and on-chain transactions); Liquid in this tier: Bitcoin-format transactions with asset / blinding annotations and a reference validator"
+
+claim("C01", "model_checking", "fsmx",
+      "explicit-state BFS of both taker roles against a scripted adversarial maker (all opening-tx and announcement variants, at most 2-3 deviations, all orders with blocks / re-announcements / time / restarts); ground-truth predicate at every claim-payment attempt",
+      "Exhaustive (bounded) exploration of the real taker state machines and the real Bitcoin validator against every enumerated malicious announcement; the statement's predicate is evaluated from chain ground truth at the instant of every payment attempt.",
+      ADVNOTE, "DESIGN.md §5 C01")
+claim("C04", "model_checking", "fsmx",
+      "explicit-state BFS of both Liquid taker roles (tip moved between all steps, invoice CLTV grid, restarts, records rewritten to protocol 6 and recovered) with an oracle at every payment attempt + grid enumeration of both route/request builders",
+      "All histories (bounded) with the Liquid tip moved across the window edges between any two steps; window, anchor, invoice CLTV and route limit are checked at every attempt; protocol-6 records must never create a payment. Builders enumerated over the CLTV grid.",
+      ADVNOTE, "DESIGN.md §5 C04")
+claim("C05", "model_checking", "fsmx",
+      "explicit-state BFS of both Bitcoin taker roles against the scripted maker (confirmation before/after the start height, blocks between all steps incl. pay retries, restarts, invoice CLTV grid, CLN and LND allowances); inequality oracle at every payment attempt",
+      "Every payment attempt in every explored history is checked for h_pay + route allowance < confirmation height + 1008.",
+      ADVNOTE, "DESIGN.md §5 C05")
+claim("C26", "model_checking", "fsmx",
+      "explicit-state BFS of both maker roles to every history ending in a CSV refund, with the real policy.Policy on a real file and a real peersync.PeerSync; probes after the refund, also after a restart",
+      "In every state reached after a CSV refund the policy file, a policy re-created from it, incoming requests, local initiations and poll / request_poll handling are probed.",
+      E1NOTE + "; real policy file and real bbolt peer store", "DESIGN.md §5 C26")
+
 NA_REASON = "check not built yet in this session (planned, see DESIGN.md §5)"
 
 def main():
